@@ -155,24 +155,46 @@ else:
                 if mm.group(1) == "hydro_deploy_integration":
                     crate_dir, pkg = "hydro_deploy/hydro_deploy_integration", mm.group(1)
             tests = [f[:-3] for f in rs_files]
+            # a demo file that drives a higher-level crate goes into that crate's tests/
+            per_file = {}
+            for f in rs_files:
+                txt = open(f"{demo_dir}/{f}").read()
+                tgt = (crate_dir, pkg)
+                for hi_dir, hi_pkg in (("hydro_test", "hydro_test"), ("hydro_std", "hydro_std"), ("hydro_lang", "hydro_lang"), ("dfir_rs", "dfir_rs")):
+                    if re.search(r"\b%s::" % hi_pkg, txt) and hi_pkg != pkg and pkg in ("dfir_lang", "dfir_pipes", "lattices", "variadics", "sinktools", "dfir_rs", "hydro_lang", "hydro_std"):
+                        # only move "upwards" in the dependency order
+                        order = ["variadics", "lattices", "sinktools", "dfir_pipes", "dfir_lang", "dfir_rs", "hydro_lang", "hydro_std", "hydro_test"]
+                        if order.index(hi_pkg) > order.index(pkg):
+                            tgt = (hi_dir, hi_pkg)
+                            break
+                per_file[f[:-3]] = tgt
             flags_env = ""
             blob = demo_cmd + "".join(open(f"{demo_dir}/{f}").read() for f in rs_files)
             if "hydro_project_hydro_verif" in blob or "verif_new" in blob or "verif_point" in blob:
                 flags_env = 'RUSTFLAGS="--cfg hydro_project_hydro_verif" CARGO_TARGET_DIR=%s/repo-target-verif ' % root
-            smart = (crate_dir, pkg, tests, flags_env)
+            smart = (crate_dir, pkg, tests, flags_env, per_file)
 
         def run_demo():
             if smart:
-                crate_dir, pkg, tests, flags_env = smart
-                os.makedirs(f"{repo}/{crate_dir}/tests", exist_ok=True)
+                crate_dir, pkg, tests, flags_env, per_file = smart
+                groups = {}
                 for t in tests:
-                    shutil.copy(f"{demo_dir}/{t}.rs", f"{repo}/{crate_dir}/tests/{t}.rs")
-                c = f"{flags_env}cargo test -p {pkg} --offline " + " ".join(f"--test {t}" for t in tests)
-                r = sh(c, cwd=repo, timeout=5400)
-                for t in tests:
-                    os.remove(f"{repo}/{crate_dir}/tests/{t}.rs")
-                conf["demo"]["cmd_rerun"] = c
-                return r
+                    groups.setdefault(per_file[t], []).append(t)
+                rc_all, out_all, secs_all, cmds = 0, "", 0.0, []
+                for (cd, pk), ts in groups.items():
+                    os.makedirs(f"{repo}/{cd}/tests", exist_ok=True)
+                    for t in ts:
+                        shutil.copy(f"{demo_dir}/{t}.rs", f"{repo}/{cd}/tests/{t}.rs")
+                    c = f"{flags_env}cargo test -p {pk} --offline " + " ".join(f"--test {t}" for t in ts)
+                    rc, out, secs = sh(c, cwd=repo, timeout=5400)
+                    for t in ts:
+                        os.remove(f"{repo}/{cd}/tests/{t}.rs")
+                    rc_all |= rc
+                    out_all += out
+                    secs_all += secs
+                    cmds.append(c)
+                conf["demo"]["cmd_rerun"] = " ; ".join(cmds)
+                return rc_all, out_all, secs_all
             return sh(f"bash -c {json.dumps(cmd)}", cwd=repo, timeout=5400)
 
         rc1, out1, s1 = run_demo()
